@@ -795,7 +795,7 @@ fn run_case(r: &mut Report, seed: u64, i: u64, threads: bool) {
         let c = case.clone();
         r.sample(move || c);
     }
-    let mut d = Driver::new(r, site.name, site.cap, &seen, exp, case, threads);
+    let mut d = Driver::new(r, site.name, site.cap, &seen, exp, case, threads && i % 2 == 0);
     let run = site.run;
     if let Err(p) = catch(|| run(&model, &mut d)) {
         d.violation("site", "panic", format!("the call site panicked: {}", p));
